@@ -36,11 +36,12 @@ def systematic_profile(name: str, kind_filter, raisers: bool, nq: int, nt: int, 
 
 
 def random_profile(name: str, core_only: bool, raisers: bool, nq: int, nt: int, oracles, actions_mode='none',
-                   configs=None, inputs=None, use_sem=False, n_rules=(4, 7), alphabet=(97, 98, 99), eol_atoms=False, switches=False, **kw) -> Profile:
+                   configs=None, inputs=None, use_sem=False, n_rules=(4, 7), alphabet=(97, 98, 99), eol_atoms=False, switches=False,
+                   racts=None, **kw) -> Profile:
     def grams(rng: random.Random, tier: str):
         n = nq if tier == 'quick' else nt
         out = []
-        corpus.RACT_MODE[0] = 'void' if use_sem else 'mixed'
+        corpus.RACT_MODE[0] = racts or ('void' if use_sem else 'mixed')
         for i in range(n):
             rg = corpus.RandGen(rng, core_only, raisers, rng.randint(*n_rules), alphabet=alphabet, eol_atoms=eol_atoms, switches=switches)
             g, roots = rg.grammar(f"{name}{i}")
@@ -93,6 +94,10 @@ def mustif_profile(name: str, nq: int, nt: int, oracles, configs=None, inputs=No
             g, roots = rg.grammar(f"{name}{i}")
             corpus.attach_actions(rng, g, 'bool')
             g.mi_msgs = {nid: f"custom-message-{nid}" for nid, nd in g.nodes.items() if nd.ctl and rng.random() < 0.33}
+            if i % 2 == 1:
+                # an Errors class with its own raise_on_failure table: opt-out for half of the rules that have a message,
+                # opt-in for a few that have none (those raise with the default message)
+                g.mi_rof = {nid for nid in g.mi_msgs if rng.random() < 0.5} | {nid for nid, nd in g.nodes.items() if nd.ctl and nid not in g.mi_msgs and rng.random() < 0.12}
             out.append((g, roots[:3], {'kind': 'must_if'}))
         corpus.RACT_MODE[0] = 'mixed'
         return out
@@ -100,3 +105,13 @@ def mustif_profile(name: str, nq: int, nt: int, oracles, configs=None, inputs=No
     def cfgs(g: Grammar, root: int, tier: str) -> List[Config]:
         return [Config(root, a, m, 'lf_crlf', 0, uw, 0, 0, 1) for (a, m) in ((1, 'r'), (1, 'o'), (0, 'o')) for uw in (1,)]
     return Profile(name, grams, configs or cfgs, inputs or inputs_exhaustive(4, 5, cap_q=70, cap_t=300), oracles, **kw)
+
+
+def atoms_profile(name: str, oracles, qlen: int = 3, tlen: int = 4, cap_q: int = 260, cap_t: int = 2500, configs=None, exclude=(), **kw) -> Profile:
+    """Every leaf rule the model has an atom for (ascii classes, utf8 ranges, maximum_rule, rep_one_min_max, predicates, …) alone
+    and in the simple contexts where a leaf that consumes before failing shows (corpus.zoo_grammars), on strings over digits,
+    letters, eol bytes and a two-byte UTF-8 sequence."""
+    def grams(rng: random.Random, tier: str):
+        return corpus.zoo_grammars(name, exclude=exclude)
+    return Profile(name, grams, configs or amr_configs(ams=((1, 'r'), (1, 'o'))),
+                   inputs_exhaustive(qlen, tlen, cap_q=cap_q, cap_t=cap_t, alpha=corpus.ZOO_ALPHA, longer=2), oracles, **kw)
